@@ -149,6 +149,8 @@ func ensureBuilt(names []string, race bool) (string, *buildInfo) {
 	fp := fingerprint()
 	dir := cacheDir(fp)
 	os.MkdirAll(dir, 0o755)
+	now := time.Now()
+	os.Chtimes(dir, now, now)
 	// serialise builds of the same fingerprint
 	lock, err := os.OpenFile(filepath.Join(verifDir, ".cache", "lock"), os.O_CREATE|os.O_RDWR, 0o644)
 	if err == nil {
@@ -307,7 +309,8 @@ func copyFile(src, dst string) error {
 	return os.Rename(tmp, dst)
 }
 
-// pruneCache keeps at most two fingerprints.
+// pruneCache keeps the current fingerprint, the six most recently used others,
+// and anything used in the last 45 minutes (another check may be running from it).
 func pruneCache(keep string) {
 	base := filepath.Join(verifDir, ".cache")
 	ents, _ := os.ReadDir(base)
@@ -327,7 +330,7 @@ func pruneCache(keep string) {
 	}
 	sort.Slice(es, func(i, j int) bool { return es[i].mod.After(es[j].mod) })
 	for i, x := range es {
-		if i >= 1 {
+		if i >= 6 && time.Since(x.mod) > 45*time.Minute {
 			os.RemoveAll(filepath.Join(base, x.name))
 		}
 	}
